@@ -83,6 +83,28 @@ class WalkError(Exception):
     pass
 
 
+def immoderate_power(base, exponent):
+    """a power whose result has more than ~400 digits: python computes exact
+    big integers for it (100^100^3 takes minutes, one level more for ever);
+    the properties are stated for moderate magnitudes"""
+    def num(v):
+        if isinstance(v, bool) or v is None:
+            return float(bool(v))
+        try:
+            return float(v)
+        except (TypeError, ValueError, OverflowError):
+            return None
+    b, e = num(base), num(exponent)
+    if b is None or e is None or b != b or e != e:
+        return b is None and isinstance(base, int) or \
+            e is None and isinstance(exponent, int)      # int beyond float
+    if abs(b) in (0.0, 1.0) or e == 0:
+        return False
+    if abs(b) == float('inf') or abs(e) == float('inf'):
+        return True
+    return abs(e) * abs(math.log10(abs(b))) > 400
+
+
 def walk(t, env):
     rt = runtime()
     k = t[0]
@@ -99,7 +121,11 @@ def walk(t, env):
     if k == 'bin':
         left = walk(t[2], env)
         right = walk(t[3], env)
+        if t[1] == '^' and immoderate_power(left, right):
+            raise WalkError('immoderate power')
         return rt['fixup'](left, OPNAME[t[1]], right)
+    if k == 'omit':
+        return None
     if k == 'call':
         name = t[1].lower()
         if name == 'true':
@@ -144,6 +170,8 @@ def check_tree(rec, fenv, tree, style_bits, env, form='fast'):
         labels.append('has:%')
     if 'call' in ops:
         labels.append('has:call')
+    if 'omit' in ops:
+        labels.append('has:omitted-arg')
     if any(t for t in g.texts_of(tree) if not t.isalnum()):
         labels.append('has:special-text')
     if "'paren'" in str(tree):
@@ -153,8 +181,8 @@ def check_tree(rec, fenv, tree, style_bits, env, form='fast'):
     try:
         exp = reference(tree, env)
         exp_exc = None
-    except WalkError:
-        rec.label('excluded:array-result')
+    except WalkError as exc:
+        rec.label(f'excluded:{str(exc).replace(" ", "-")}')
         return None
     except Exception as exc:
         exp, exp_exc = None, exc
